@@ -19,9 +19,17 @@ Definition covered_op (o : op) : Prop :=
 (* nothing waits in memory (always true of a handle that has not loaded the schema) *)
 Definition synced_st (s : state) : Prop := synced_h (s_h s) (s_w s).
 
+(* the file extension of the collection (schema.json, or the loaded schema) *)
+Definition ext_of (s : state) : list N :=
+  match h_mem (s_h s) with
+  | Some m => st_ext (m_set m)
+  | None => match d_schema (w_disk (s_w s)) with Some (SOk sf) => st_ext (sf_set sf) | _ => [] end
+  end.
+
 Definition wf_op (hk : hooks) (s : state) (o : op) : Prop :=
   match o with
-  | OCreate _ _ => abs s = None                       (* creation of a collection that does not exist *)
+  | OCreate st _ =>                                   (* a second Create keeps the extension *)
+      match abs s with None => True | Some _ => str_eqb (ext_of s) (st_ext st) = true end
   | OInsert _ _ ob =>                                 (* the flat record has one key per field *)
       forall sp, abs s = Some sp -> keys_ok (sp_fds sp) (hk_tr hk (o_keys ob))
   | OControl => h_pend (s_h s) = []                   (* see control_pending_reports_corruption *)
@@ -123,10 +131,13 @@ Proof. intros [_ I]. split; [split; reflexivity|exact I]. Qed.
 
 (* ================================================================ the foreground call *)
 
+(* writes: the calls after which a handle in asynchronous mode may hold unflushed data *)
+Definition is_write (o : op) : Prop :=
+  match o with OInsert _ _ _ | ODelete _ | OCreate _ _ => True | _ => False end.
+
 Ltac fin_write :=
   splits; try reflexivity; try assumption; try (intros; discriminate);
-  try (let H := fresh in let K := fresh in let K2 := fresh in
-       intros H K K2; exfalso; ((eapply K; reflexivity) || (eapply K2; reflexivity))).
+  try (let H := fresh in let K := fresh in intros H K; exfalso; apply K; exact Logic.I).
 
 Section FG.
 Variables (hk : hooks) (ls : N).
@@ -184,6 +195,7 @@ Proof.
     - intros u o H. discriminate.
     - constructor.
     - intros u o _ H. discriminate.
+    - reflexivity.
     - exists (sfile_of m). cbn. repeat split. }
   rewrite (control_ok ls [] (w_disk w2) m IC).
   eexists. split; [reflexivity|]. split.
@@ -192,13 +204,83 @@ Proof.
   - unfold abs. cbn [mk s_h s_w set_mem h_mem h_pend]. reflexivity.
 Qed.
 
+(* --- Create on an existing collection: cache / asynchronous writes switched on or off *)
+Lemma db_schema_ext h w fds a h1 m1 :
+  Inv ls (mk h w) -> abs (mk h w) = Some {| sp_fds := fds; sp_map := a |} ->
+  db_schema ls h (w_disk w) = (h1, Some m1, None) -> st_ext (m_set m1) = ext_of (mk h w).
+Proof.
+  unfold Inv, abs, ext_of. cbn [mk s_h s_w]. intros [Hn I] Ha. destruct (h_mem h) as [m|] eqn:Hm.
+  - destruct (db_schema_on_loaded ls h (w_disk w) m Hm) as [h2 [m2 [A [B [V _]]]]]. rewrite A.
+    intros H. inversion H; subst. destruct V as [V1 _]. rewrite V1. reflexivity.
+  - destruct I as [Hc [Hp [Hfl DK]]]. destruct DK as [[_ [Hs _]]|[sf [Hs IC]]]; rewrite Hs in *; [discriminate|].
+    unfold db_schema. rewrite Hm, (ic_dir _ _ _ _ _ IC), Hs. cbn [negb].
+    rewrite (control_ok ls [] (w_disk w) (mem_of sf) IC).
+    assert (Hm2 : h_mem (set_mem h (Some (mem_of sf))) = Some (mem_of sf)) by reflexivity.
+    destruct (rf_start_flusher_mem _ _ Hm2) as [m' [A [B [C _]]]]. rewrite A.
+    intros H. inversion H; subst. rewrite C. reflexivity.
+Qed.
+
+Lemma fg_recreate h w fds a st fds' :
+  Inv ls (mk h w) -> abs (mk h w) = Some {| sp_fds := fds; sp_map := a |} ->
+  str_eqb (ext_of (mk h w)) (st_ext st) = true ->
+  exists s1, step_fg hk ls (mk h w) (OCreate st fds') =
+               (s1, RUnit (if fds_compat fds fds' then Ok tt else Err EFieldDesc)) /\
+             Inv ls s1 /\ abs s1 = Some {| sp_fds := fds; sp_map := a |}.
+Proof.
+  intros I Ha Hx.
+  destruct (db_schema_ok ls h w fds a I Ha) as [h1 [m1 [D [M1 [L1 _]]]]].
+  pose proof (db_schema_ext h w fds a h1 m1 I Ha D) as Hext.
+  destruct (LState_mem _ _ _ _ _ _ L1 M1) as [Hn [[IC1 IS1] [Hf1 Ha1]]].
+  unfold step_fg. cbv beta zeta iota. cbn [mk s_h s_w]. rewrite D.
+  assert (Hx' : str_eqb (st_ext (m_set m1)) (st_ext st) = true) by (rewrite Hext; exact Hx).
+  rewrite Hx'. cbn [negb].
+  assert (Hcomp : (length (m_fields m1) =? length fds') &&
+                  forallb (fun p : fdesc * fdesc => fdesc_eqb (fst p) (snd p)) (combine (m_fields m1) fds')
+                  = fds_compat fds fds') by (rewrite Hf1; reflexivity).
+  rewrite Hcomp.
+  destruct (fds_compat fds fds'); cbn [negb].
+  2: { destruct (LState_Inv _ _ _ _ _ L1) as [I1 A1]. eexists. split; [reflexivity|]. split; assumption. }
+  fold (resettings m1 st). set (mnew := resettings m1 st).
+  assert (X : exists h2 w0 m2,
+            (if async_on m1 && negb match st_async st with Some _ => true | None => false end
+             then flush_all ls h1 w else (h1, None, w)) = (h2, None, w0) /\
+            LState ls h2 w0 fds a /\ h_mem h2 = Some m2 /\ view_eq m1 m2 /\ m_idx m2 = m_idx m1 /\
+            (async_on m1 = true -> async_on mnew = false -> h_pend h2 = [])).
+  { destruct (async_on m1 && negb match st_async st with Some _ => true | None => false end) eqn:Efl.
+    - destruct (flush_all_ok ls h1 w fds a L1) as [h2 [w0 [F [L2 [P2 _]]]]].
+      destruct (flush_all_mem ls h1 w m1 h2 None w0 M1 F) as [m2 [M2 [V2 X2]]].
+      exists h2, w0, m2. splits; try assumption. intros _ _. exact P2.
+    - exists h1, w, m1. splits; try assumption; try reflexivity; [apply view_eq_refl|].
+      intros E1 E2. rewrite E1 in Efl. unfold mnew, async_on, resettings in E2. cbn [m_set st_async] in E2.
+      destruct (st_async st); [discriminate|]. discriminate. }
+  destruct X as [h2 [w0 [m2 [X [L2 [M2 [V2 [X2 P2]]]]]]]]. rewrite X.
+  destruct (LState_mem _ _ _ _ _ _ L2 M2) as [Hn2 [[IC2 _] [Hf2 Ha2]]].
+  pose proof V2 as [V21 [V22 [V23 _]]].
+  destruct (core_resettings ls _ _ _ m2 mnew IC2) as [IC3 Habs].
+  { rewrite V22. reflexivity. } { rewrite V23. reflexivity. } { rewrite X2. reflexivity. }
+  { rewrite V21. reflexivity. } { rewrite V21. reflexivity. }
+  { rewrite (view_async _ _ V2). exact P2. }
+  destruct (rf_save_schema w0 mnew Hn2 (ic_dir _ _ _ _ _ IC2)) as [w1 [S1 [N1 D1]]]. rewrite S1.
+  set (h3 := if must_cache mnew then h2 else set_cache h2 []).
+  assert (Hh3 : h_cache h3 = (if must_cache mnew then h_cache h2 else []) /\ h_pend h3 = h_pend h2).
+  { unfold h3. destruct (must_cache mnew); split; reflexivity. }
+  destruct Hh3 as [Hc3 Hp3].
+  eexists. split; [reflexivity|]. split.
+  - split; [exact N1|]. cbn [mk s_h s_w set_mem h_mem h_cache h_pend]. rewrite Hc3, Hp3, D1.
+    apply core_commit. exact IC3.
+  - unfold abs. cbn [mk s_h s_w set_mem h_mem h_pend]. rewrite Hp3, D1.
+    change (abs_of (h_pend h2) (disk_set_schema (Some (SOk (sfile_of mnew))) (w_disk w0)) mnew)
+      with (abs_of (h_pend h2) (w_disk w0) mnew).
+    rewrite Habs, Ha2. cbn [mnew resettings m_fields]. rewrite Hf1. reflexivity.
+Qed.
+
 (* --- on an existing collection *)
 Lemma fg_exists h w fds a o :
   Inv ls (mk h w) -> abs (mk h w) = Some {| sp_fds := fds; sp_map := a |} -> wf_op hk (mk h w) o ->
   o <> OTick ->
   exists s1 r, step_fg hk ls (mk h w) o = (s1, r) /\ Post hk ls (mk h w) o s1 r /\
                (o = OClose -> synced_st s1) /\
-               (synced_st (mk h w) -> (forall u f ob, o <> OInsert u f ob) -> (forall u, o <> ODelete u) -> synced_st s1).
+               (synced_st (mk h w) -> ~ is_write o -> synced_st s1).
 Proof.
   intros I Ha Hwf Hnt. unfold Post. rewrite Ha.
   destruct (db_schema_ok ls h w fds a I Ha) as [h1 [m1 [D [M1 [L1 [K1 Sy1]]]]]].
@@ -207,8 +289,11 @@ Proof.
   assert (Sy1' : synced_st (mk h w) -> synced_st (mk h1 w)) by (exact Sy1).
   destruct o; try contradiction; unfold step_fg; cbv beta zeta iota; cbn [mk s_h s_w];
     unfold spec_step; cbn [fst snd sp_fds sp_map].
-  - (* OCreate on an existing collection is outside the covered calls *)
-    cbn in Hwf. congruence.
+  - (* OCreate on an existing collection *)
+    cbn [wf_op] in Hwf. rewrite Ha in Hwf.
+    destruct (fg_recreate h w fds a st fds0 I Ha Hwf) as [s1 [E [I2 A2]]].
+    unfold step_fg in E. cbv beta zeta iota in E. cbn [mk s_h s_w] in E. rewrite E.
+    eexists. eexists. split; [reflexivity|]. fin_write.
   - (* OInsert *)
     unfold do_insert. rewrite (with_schema_some ls (mk h w) _ _ h1 m1 D).
     change (prepare_obj hk m1 o) with (prep hk (m_fields m1) o). rewrite Hf1. cbn [mk s_h s_w].
@@ -271,12 +356,12 @@ Proof.
     destruct (commit_inv_ok ls h w fds a I Ha) as [h2 [w2 [C [L2 [S2 _]]]]]. rewrite C.
     destruct (LState_Inv _ _ _ _ _ L2) as [I2 A2].
     eexists; eexists; split; [reflexivity|]; splits; try reflexivity; try assumption; try discriminate.
-    intros H _ _. apply S2. unfold synced_st, synced_h in H. cbn [mk s_h s_w] in H.
+    intros H _. apply S2. unfold synced_st, synced_h in H. cbn [mk s_h s_w] in H.
     destruct (h_mem h) as [m|] eqn:Hm; [apply H|]. destruct I as [_ I']. cbn [mk s_h s_w] in I'. rewrite Hm in I'. apply I'.
   - (* OFlushAll *)
     destruct (flush_inv_ok ls h w I) as [h2 [w2 [F [I2 [A2 [P2 [U2 _]]]]]]]. rewrite F. rewrite Ha in A2.
     eexists; eexists; split; [reflexivity|]; splits; try reflexivity; try assumption; try discriminate.
-    intros H _ _. destruct (h_mem h) as [m|] eqn:Hm.
+    intros H _. destruct (h_mem h) as [m|] eqn:Hm.
     + pose proof (Inv_LState ls h w m I Hm) as L.
       destruct (flush_all_ok ls h w _ _ L) as [h3 [w3 [F3 [_ [_ [_ S3]]]]]].
       rewrite F in F3. inversion F3; subst. apply S3. exact H.
@@ -287,7 +372,7 @@ Proof.
     destruct (commit_inv_ok ls h2 w2 fds a I2 A2) as [h3 [w3 [C [L3 [S3 _]]]]]. rewrite C.
     destruct (LState_Inv _ _ _ _ _ L3) as [I3 A3].
     eexists; eexists; split; [reflexivity|]; splits; try reflexivity; try assumption; try discriminate.
-    intros _ _ _. apply S3. exact P2.
+    intros _ _. apply S3. exact P2.
   - (* OControl *)
     cbn in Hwf. destruct (h_mem h) as [m|] eqn:Hm.
     + pose proof I as [_ I']. cbn [mk s_h s_w] in I'. rewrite Hm in I'. destruct I' as [IC _].
@@ -303,7 +388,7 @@ Proof.
       destruct (LState_Inv _ _ _ _ _ L3) as [I3 A3].
       eexists; eexists; split; [reflexivity|]; splits; try reflexivity; try assumption; try discriminate.
       * intros _. apply S3. exact P2.
-      * intros _ _ _. apply S3. exact P2.
+      * intros _ _. apply S3. exact P2.
     + assert (Sy : synced_st (mk h2 w2)) by (unfold synced_st, synced_h; cbn [mk s_h s_w]; rewrite Hm2; exact Logic.I).
       eexists; eexists; split; [reflexivity|]; splits; try reflexivity; try assumption; try discriminate; intros; auto.
   - (* OReopen *)
@@ -354,10 +439,6 @@ Lemma step_nontick hk ls s o : covered_op o -> o <> OTick ->
         end).
 Proof. intros Hc Hnt. destruct o; try contradiction; reflexivity. Qed.
 
-(* writes: the calls after which a handle in asynchronous mode may hold unflushed data *)
-Definition is_write (o : op) : Prop :=
-  match o with OInsert _ _ _ | ODelete _ | OCreate _ _ => True | _ => False end.
-
 Lemma fg_all hk ls h w o : Inv ls (mk h w) -> wf_op hk (mk h w) o -> o <> OTick ->
   exists s1 r, step_fg hk ls (mk h w) o = (s1, r) /\ Post hk ls (mk h w) o s1 r /\
                (o = OClose -> synced_st s1) /\ (synced_st (mk h w) -> ~ is_write o -> synced_st s1).
@@ -365,7 +446,7 @@ Proof.
   intros I Hwf Hnt. destruct (abs (mk h w)) as [[fds a]|] eqn:Ha.
   - destruct (fg_exists hk ls h w fds a o I Ha Hwf Hnt) as [s1 [r [E [P [C S]]]]].
     exists s1, r. split; [exact E|]. split; [exact P|]. split; [exact C|].
-    intros Hs Hnw. apply S; [exact Hs| |]; intros; intros ->; apply Hnw; exact Logic.I.
+    intros Hs Hnw. apply S; assumption.
   - assert (Hc : (exists st fds, o = OCreate st fds) \/ (forall st fds, o <> OCreate st fds)).
     { destruct o; try (right; intros; discriminate). left. eexists. eexists. reflexivity. }
     destruct Hc as [[st [fds ->]]|Hc].
